@@ -24,15 +24,20 @@ type atom struct {
 	load  ssa.Value // the Load call
 	stay  bool      // value of the atom for which the waiter keeps waiting
 	desc  string
+	inl   map[ssa.Value]ssa.Value // calls of bool getters seen through: call -> the getter's returned expression
+	outer *types.Var              // when the Load sits in a method of a wrapper type: the field holding the wrapper
 }
 
 // evalBool evaluates a boolean expression over one atomic Load replaced by the constant k.
-func evalBool(v ssa.Value, load ssa.Value, k constant.Value) (bool, bool) {
+func evalBool(v ssa.Value, load ssa.Value, k constant.Value, inl map[ssa.Value]ssa.Value) (bool, bool) {
 	v = an.Strip(v)
+	if r, ok := inl[v]; ok && v != load {
+		return evalBool(r, load, k, inl)
+	}
 	switch x := v.(type) {
 	case *ssa.UnOp:
 		if x.Op == token.NOT {
-			b, ok := evalBool(x.X, load, k)
+			b, ok := evalBool(x.X, load, k, inl)
 			return !b, ok
 		}
 	case *ssa.Const:
@@ -191,6 +196,24 @@ func condDiscipline(c *core.Ctx, r *core.Report) {
 			if len(op.Call.Common().Args) > 1 {
 				written = op.Call.Common().Args[1]
 			}
+			// a method of a wrapper type operating on a field of its own receiver: the write happens, for the pool,
+			// at the wrapper's call sites — and only those reaching it through the same outer field count
+			onOwnRecv := false
+			if fa, ok := op.Call.Common().Args[0].(*ssa.FieldAddr); ok && op.Fn.Signature.Recv() != nil && len(op.Fn.Params) > 0 {
+				if p0, isP := an.Strip(fa.X).(*ssa.Parameter); isP && p0 == op.Fn.Params[0] && at.outer != nil {
+					onOwnRecv = true
+				}
+			}
+			if at.outer != nil && !onOwnRecv {
+				continue
+			}
+			viaOuter := func(cs ssa.CallInstruction) bool {
+				if at.outer == nil {
+					return true
+				}
+				fa, ok := an.Strip(cs.Common().Args[0]).(*ssa.FieldAddr)
+				return ok && an.SameField(an.FieldOfAddr(fa), at.outer)
+			}
 			if p, ok := an.Strip(written).(*ssa.Parameter); ok {
 				idx := -1
 				for i, pp := range op.Fn.Params {
@@ -199,7 +222,15 @@ func condDiscipline(c *core.Ctx, r *core.Report) {
 					}
 				}
 				for _, cs := range an.CallSitesOf(c, op.Fn) {
-					sites = append(sites, site{cs, cs.Common().Args[idx]})
+					if viaOuter(cs) {
+						sites = append(sites, site{cs, cs.Common().Args[idx]})
+					}
+				}
+			} else if onOwnRecv {
+				for _, cs := range an.CallSitesOf(c, op.Fn) {
+					if viaOuter(cs) {
+						sites = append(sites, site{cs, written})
+					}
 				}
 			} else {
 				sites = append(sites, site{op.Call, written})
@@ -218,7 +249,7 @@ func condDiscipline(c *core.Ctx, r *core.Report) {
 				if k, ok := an.Strip(s.val).(*ssa.Const); ok && k.Value != nil {
 					switch op.Op {
 					case "Store", "Swap":
-						if b, ok := evalBool(at.expr, at.load, k.Value); ok {
+						if b, ok := evalBool(at.expr, at.load, k.Value, at.inl); ok {
 							falsifies = b != at.stay
 							why = sprintf("writes %s, atom becomes %v (waiter stays on %v)", k.Value, b, at.stay)
 						}
@@ -254,44 +285,64 @@ type resolvedAtom struct {
 func resolveAtom(c *core.Ctx, cond ssa.Value) (resolvedAtom, bool) {
 	cond = an.Strip(cond)
 	var expr ssa.Value = cond
-	if call, ok := cond.(*ssa.Call); ok {
-		g := an.Callee(call)
-		if g != nil && core.InModule(g) && g.Blocks != nil {
-			rets := an.Returns(g)
-			if len(rets) != 1 || len(rets[0].Results) != 1 {
-				return resolvedAtom{}, false
-			}
-			expr = rets[0].Results[0]
-		}
-	}
-	// find the single atomic Load under expr
+	inl := map[ssa.Value]ssa.Value{}
+	// find the single atomic Load under expr, looking through bool getters of the module (one returned expression)
 	var load ssa.Value
-	var fld *types.Var
-	var walk func(v ssa.Value, d int)
-	walk = func(v ssa.Value, d int) {
+	var fld, outer *types.Var
+	var walk func(v ssa.Value, d int, recvField *types.Var)
+	walk = func(v ssa.Value, d int, recvField *types.Var) {
 		v = an.Strip(v)
-		if d > 6 {
+		if d > 8 {
 			return
 		}
 		switch x := v.(type) {
 		case *ssa.Call:
-			if t := an.Callee(x); t != nil && t.Pkg != nil && t.Pkg.Pkg.Path() == "sync/atomic" && t.Name() == "Load" {
+			t := an.Callee(x)
+			if t != nil && t.Pkg != nil && t.Pkg.Pkg.Path() == "sync/atomic" && t.Name() == "Load" {
 				if f := an.FieldOfAddr(x.Call.Args[0]); f != nil {
 					load, fld = x, f
+					// the Load is on a field of the getter's own receiver, which the caller reached through recvField
+					if fa, ok := x.Call.Args[0].(*ssa.FieldAddr); ok && recvField != nil {
+						if p, isP := an.Strip(fa.X).(*ssa.Parameter); isP && an.ParamIndex(p) == 0 {
+							outer = recvField
+						}
+					}
 				}
+				return
+			}
+			if t != nil && core.InModule(t) && t.Blocks != nil {
+				rets := an.Returns(t)
+				if len(rets) != 1 || len(rets[0].Results) != 1 {
+					return
+				}
+				inl[x] = rets[0].Results[0]
+				var rf *types.Var
+				if t.Signature.Recv() != nil && len(x.Call.Args) > 0 {
+					if fa, ok := an.Strip(x.Call.Args[0]).(*ssa.FieldAddr); ok {
+						rf = an.FieldOfAddr(fa)
+					}
+				}
+				walk(rets[0].Results[0], d+1, rf)
 			}
 		case *ssa.BinOp:
-			walk(x.X, d+1)
-			walk(x.Y, d+1)
+			walk(x.X, d+1, recvField)
+			walk(x.Y, d+1, recvField)
 		case *ssa.UnOp:
-			walk(x.X, d+1)
+			walk(x.X, d+1, recvField)
 		}
 	}
-	walk(expr, 0)
+	walk(expr, 0, nil)
 	if load == nil {
 		return resolvedAtom{}, false
 	}
-	return resolvedAtom{atom: atom{field: fld, expr: expr, load: load, desc: an.D().Of(expr)}}, true
+	for {
+		r, ok := inl[an.Strip(expr)]
+		if !ok {
+			break
+		}
+		expr = r
+	}
+	return resolvedAtom{atom: atom{field: fld, expr: expr, load: load, desc: an.D().Of(expr), inl: inl, outer: outer}}, true
 }
 
 // wakesUnderLock: the instruction is a Broadcast/Signal on cond executed with cond.L held, or a call of a
